@@ -77,9 +77,9 @@ func c18Target(c *Ctx) {
 	}
 	c.R.Checkf(rule, "knowledge-key", c.pos(f.Pos()), strings.Contains(knowExpr, ".cacheKey(domain, common.AddrToDnsType(dst.Addr()))"), "DNS knowledge is looked up under cacheKey(name, record type of the destination's family): %s", knowExpr)
 	type row struct {
-		mode                               string
-		reserved, hasName, ipLike, know    bool
-		known, real                        bool
+		mode                            string
+		reserved, hasName, ipLike, know bool
+		known, real                     bool
 	}
 	ref := func(r row) []string {
 		ip := "IP reroute=false dialIp=true"
